@@ -221,6 +221,10 @@ class StagingRig(object):
                 with open(p, 'w') as fh:
                     fh.write('%s:%s' % (loc, f))
         os.makedirs(os.path.join(self.dirs['endpoint'], EXIST_DIR))
+        # directory targets (written with a trailing slash): "d/" exists nowhere,
+        # "e/" exists (empty) in every non-task location
+        for loc in LOCS:
+            os.makedirs(os.path.join(self.dirs[loc], 'e'))
         self.cwd = root + '/cwd'
         os.makedirs(self.cwd)
         self.dirs['cwd'] = self.cwd     # working directory of all components (the agent's
